@@ -251,6 +251,16 @@ class _Blank(ast.NodeTransformer):
     def visit_JoinedStr(self, n: ast.JoinedStr) -> ast.AST:
         return ast.copy_location(ast.Constant(value=""), n)
 
+    def visit_Call(self, n: ast.Call) -> ast.AST:
+        # `sep.join([x for x in X])` is `sep.join(X)`: join materialises its argument first.  The async flavour has to spell the comprehension (`async for`), the sync
+        # flavour may pass the iterator itself
+        self.generic_visit(n)
+        if isinstance(n.func, ast.Attribute) and n.func.attr == "join" and len(n.args) == 1 and not n.keywords and isinstance(n.args[0], (ast.ListComp, ast.GeneratorExp)):
+            c = n.args[0]
+            if len(c.generators) == 1 and not c.generators[0].ifs and isinstance(c.elt, ast.Name) and isinstance(c.generators[0].target, ast.Name) and c.elt.id == c.generators[0].target.id:
+                n.args = [c.generators[0].iter]
+        return n
+
 
 def _shared_pairs(ctx: Context) -> None:
     import re
@@ -383,3 +393,16 @@ def run(ctx: Context) -> None:  # noqa: F811
                "no path from inside the region re-acquires the pool lock" if not inner and not nested else
                f"the sync twin re-enters its non-reentrant pool lock where the async twin's lock is a no-op: {inner or 'nested with'} - same inputs, the async call returns and the sync call never does")
     rep.floor("C18.R9", "pool-lock regions (sync)", len(regions), 4)
+
+
+
+_core_run_r10 = run
+
+
+def run(ctx: Context) -> None:  # noqa: F811
+    _core_run_r10(ctx)
+    from . import backend
+
+    ctx.rep.rule("C18.R10", "the thread Event and the async Event accept the same timeout domain and have the same outcome: the caller's timeout bounds the wait (None and inf both mean "
+                            "no limit), an unsuccessful wait raises PoolTimeout, a successful one returns - decided on the values that reach threading.Event.wait / fail_after")
+    backend.primitives(ctx, "C18.R10", ["AsyncEvent", "Event"])
